@@ -172,16 +172,20 @@ def gen_scaling_kind(g, spec):
     return {"kind": k}
 
 
-def make_params(cfg, sc, spec, x0, y0):
+def make_params(cfg, sc, spec, x0, y0, enum_names=False):
     from pygradflow import params as PM
     from pygradflow.scale import Scaling
     kw = dict(cfg)
     enums = {"newton_type": PM.NewtonType, "step_solver_type": PM.StepSolverType, "linear_solver_type": PM.LinearSolverType,
              "step_control_type": PM.StepControlType, "penalty_update": PM.PenaltyUpdate, "active_set_type": PM.ActiveSetType,
              "precision": PM.Precision, "deriv_check": PM.DerivCheck}
+    named = {}
     for k, E in enums.items():
         if k in kw and isinstance(kw[k], str):
-            kw[k] = E[kw[k]]
+            if enum_names and k != "deriv_check":
+                named[k] = E[kw[k]]          # Params accepts the member's name and converts it
+            else:
+                kw[k] = E[kw[k]]
     scal = None
     if sc and sc["kind"] == "custom":
         scal = Scaling(np.array(sc["vw"], dtype=int), np.array(sc["cw"], dtype=int), int(sc["ow"]))
@@ -194,6 +198,7 @@ def make_params(cfg, sc, spec, x0, y0):
     # every status means)
     altered = []
     for k, v in kw.items():
+        v = named.get(k, v)
         got = getattr(params, k, None)
         same = (got is v) or (isinstance(v, np.ndarray) and isinstance(got, np.ndarray) and np.array_equal(got, v)) \
             or (not isinstance(v, np.ndarray) and not isinstance(got, np.ndarray) and got == v)
@@ -299,6 +304,8 @@ def _run(case, solver_obj=None, keep=False):
         cfg["report_rcond"] = obs["report_rcond"]
     x0 = np.array(case["x0"], dtype=float) if case["x0"] is not None else None       # None: the solver's default start
     y0 = np.array(case["y0"], dtype=float) if case["y0"] is not None else None
+    if case.get("forms", {}).get("y0_scalar") and y0 is not None and y0.size and np.all(y0 == y0[0]):
+        y0 = float(y0[0])                      # solve(x0, y0) takes a scalar for "the same multiplier everywhere"
     params, scal = (None, None)
     trials, ann = [], []
     out = {"evals_total": 0}
@@ -319,7 +326,8 @@ def _run(case, solver_obj=None, keep=False):
     try:
         try:
             if solver_obj is None:
-                params, scal = make_params(cfg, case.get("sc"), spec, case["x0"], case["y0"])
+                params, scal = make_params(cfg, case.get("sc"), spec, case["x0"], case["y0"],
+                                           enum_names=bool(case.get("forms", {}).get("enum_names")))
                 if case.get("integration"):
                     from pygradflow.integration.integration_solver import IntegrationSolver
                     solver = IntegrationSolver(prob, params)
